@@ -450,13 +450,24 @@ func eScenario(r *rand.Rand) ([]database.Command, string, eOpts) {
 		w := ePlain[r.Intn(12)]
 		var cmds []database.Command
 		n := 55 + r.Intn(16)
+		small := r.Intn(2) == 0 // ... or at a small limit with a group of equal scores straddling the cut
+		if small {
+			n = 64 + r.Intn(40)
+		}
+		twin := eGenCommand(r)
 		for i := 0; i < n; i++ {
 			c := eGenCommand(r)
+			if small && i%3 != 0 {
+				c = twin
+			}
 			c.Description = w + " " + c.Description
 			c.Platform = nil
 			cmds = append(cmds, c)
 		}
 		o.Limit = n + 3
+		if small {
+			o.Limit = []int{0, 1, 3, 5, 12, 30}[r.Intn(6)]
+		}
 		o.NLP = r.Intn(2) == 0
 		o.AllPlatforms = true
 		return cmds, []string{w, w + " " + eActions[r.Intn(len(eActions))]}[r.Intn(2)], o
